@@ -364,6 +364,19 @@ def make_builtins(I):
     def _round(v, nd=None):
         if isinstance(v, (int, Fraction)) and not is_sym(nd):
             return round(v, nd) if nd is not None else round(v)
+        if isinstance(v, z3.ArithRef) and (nd is None or isinstance(nd, int)):
+            # round-half-even of a real to nd decimals (Python's rule), as an exact term: y = v * 10^nd, f = floor(y)
+            if v.is_int():
+                return v if (nd is None or nd >= 0) else (_ for _ in ()).throw(Unsupported('round() of an int to negative digits'))
+            # defined by its characteristic property (a definitional extension: such a k exists and is unique for every y):
+            # k is an integer with |y - k| <= 1/2, and even when y lies exactly half-way
+            scale = Fraction(10) ** (nd or 0)
+            y = v * z3.RealVal(str(scale))
+            k = I.ctx.fresh('rounded', z3.IntSort())
+            half = z3.RealVal('1/2')
+            dk = y - z3.ToReal(k)
+            I.ctx.axiom(z3.And(dk <= half, dk >= -half, z3.Implies(z3.Or(dk == half, dk == -half), k % 2 == 0)))
+            return k if nd is None else z3.ToReal(k) / z3.RealVal(str(scale))
         raise Unsupported('round() on symbolic value')
 
     def _callable(v):
